@@ -152,7 +152,7 @@ mod verif_c05e {
     //@harness prop=C05 kind=bounded tier=quick class=P bound="ellipse width <= 5 (row search loop), height <= 64, at most one empty row skipped per call, position +-1024" unwindset="ellipse::points::Scanlines as core::iter::Iterator>::next=3;try_fold=7" fns=src/primitives/ellipse/points.rs::Scanlines::new;src/primitives/ellipse/points.rs::Scanlines::next
     #[kani::proof]
     #[kani::unwind(8)]
-    #[kani::stub_verified(crate::primitives::ellipse::EllipseContains::contains)]
+    #[kani::stub(crate::primitives::ellipse::EllipseContains::contains, crate::primitives::ellipse::verif_ell::contains_by_contract)]
     fn c05_ellipse_row() {
         let c = any_ellipse(5, 64);
         let mut s = Scanlines::new(&c);
@@ -215,7 +215,7 @@ mod verif_c05e {
     //@harness prop=C05 kind=bounded tier=thorough class=I bound="ellipse width <= 4, height <= 8" unwindset="ellipse::points::Scanlines as core::iter::Iterator>::next=10;try_fold=6" timeout=3000 fns=src/primitives/ellipse/points.rs::Points::next
     #[kani::proof]
     #[kani::unwind(10)]
-    #[kani::stub_verified(crate::primitives::ellipse::EllipseContains::contains)]
+    #[kani::stub(crate::primitives::ellipse::EllipseContains::contains, crate::primitives::ellipse::verif_ell::contains_by_contract)]
     fn c05_ellipse_points_step_next_row() {
         let c = any_ellipse(4, 8);
         let mut p = Points::new(&c);
@@ -255,7 +255,7 @@ mod verif_c05e {
     //@harness prop=C05 kind=bounded tier=quick class=P bound="ellipse 2 x h, h <= 10, first point only" unwindset="ellipse::points::Scanlines as core::iter::Iterator>::next=12;try_fold=4"
     #[kani::proof]
     #[kani::unwind(13)]
-    #[kani::stub_verified(crate::primitives::ellipse::EllipseContains::contains)]
+    #[kani::stub(crate::primitives::ellipse::EllipseContains::contains, crate::primitives::ellipse::verif_ell::contains_by_contract)]
     fn c05_ellipse_thin_first_point() {
         let h: u32 = kani::any();
         kani::assume(h >= 1 && h <= 10);
@@ -333,8 +333,8 @@ mod verif_c05r {
     //@harness prop=C05 kind=bounded tier=thorough class=P bound="rounded rectangle <= 6x6, four independent corner radii that fit the rectangle (no confinement needed), position +-1024" timeout=3000 fns=src/primitives/rounded_rectangle/points.rs::Scanlines::next;src/primitives/rounded_rectangle/mod.rs::RoundedRectangleContains::new;src/primitives/rounded_rectangle/mod.rs::RoundedRectangleContains::contains
     #[kani::proof]
     #[kani::unwind(9)]
-    #[kani::stub_verified(crate::primitives::ellipse::EllipseContains::contains)]
-    #[kani::stub_verified(crate::primitives::rounded_rectangle::CornerRadii::confine)]
+    #[kani::stub(crate::primitives::ellipse::EllipseContains::contains, crate::primitives::ellipse::verif_ell::contains_by_contract)]
+    #[kani::stub(crate::primitives::rounded_rectangle::CornerRadii::confine, crate::primitives::rounded_rectangle::corner_radii::verif_cr::confine_by_contract)]
     fn c05_rounded_rect_row_fitting_corners() {
         let rr = any_rr(6, 6, false);
         kani::assume(fits(&rr));
@@ -343,11 +343,27 @@ mod verif_c05r {
     //@harness prop=C05 kind=bounded tier=thorough class=P bound="rounded rectangle <= 4x4, equal corner radii <= 8x8 incl. radii that must be confined, position (0,0)" timeout=3000
     #[kani::proof]
     #[kani::unwind(9)]
-    #[kani::stub_verified(crate::primitives::ellipse::EllipseContains::contains)]
+    #[kani::stub(crate::primitives::ellipse::EllipseContains::contains, crate::primitives::ellipse::verif_ell::contains_by_contract)]
     fn c05_rounded_rect_row_confined_corners() {
         let mut rr = any_rr(4, 4, true);
         rr.rectangle.top_left = Point::new(0, 0);
         row(rr, 8);
+    }
+
+    /// Tall, narrow rounded rectangles: corner ellipses that are much taller than wide have rows without
+    /// any pixel; the row returned for such a y must still be exactly the set contains() accepts.
+    //@harness prop=C05 kind=bounded tier=quick class=P bound="rounded rectangle w <= 3, h <= 15 at (0,0), equal corner radii rx <= 1, ry <= 7 that fit; any row, any probe column within +-6" timeout=900 kani="--no-assertion-reach-checks" fns=src/primitives/rounded_rectangle/points.rs::Scanlines::next;src/primitives/rounded_rectangle/mod.rs::RoundedRectangleContains::new;src/primitives/rounded_rectangle/mod.rs::RoundedRectangleContains::contains
+    #[kani::proof]
+    #[kani::unwind(6)]
+    #[kani::stub(crate::primitives::ellipse::EllipseContains::contains, crate::primitives::ellipse::verif_ell::contains_by_contract)]
+    #[kani::stub(crate::primitives::rounded_rectangle::CornerRadii::confine, crate::primitives::rounded_rectangle::corner_radii::verif_cr::confine_by_contract)]
+    fn c05_rounded_rect_row_thin_corners() {
+        let bits = |m: u8| (kani::any::<u8>() & m) as u32;
+        let (w, h, rx, ry) = (bits(3), bits(15), bits(1), bits(7));
+        kani::assume(2 * rx <= w && 2 * ry <= h);
+        let rr = RoundedRectangle::with_equal_corners(Rectangle::new(Point::new(0, 0), Size::new(w, h)), Size::new(rx, ry));
+        row(rr, 6);
+        kani::cover!(w == 2 && h == 8 && rx == 1 && ry == 4);
     }
 
     /// contains() is false outside the bounding box (loop-free)
@@ -365,54 +381,93 @@ mod verif_c05r {
 //@end
 
 // ------------------------------------------------------------------ Sector (tiny, from the constructor)
+// Kani resolves `f32::sin/cos` to std's intrinsics (std is in the crate graph of a Kani build through the
+// kani library, so the inherent methods win over micromath's `F32Ext`), and models these intrinsics as
+// NONDETERMINISTIC values: two calls of PlaneSector::new with the same angles give different results, which
+// made a direct points()/contains() comparison fail although the real (micromath) code agrees (false alarm,
+// see DESIGN.md). The harness below therefore replaces PlaneSector::new by an ARBITRARY BUT FIXED plane
+// sector (any normals within the scaled range, any operation): points() == contains() is proved for every
+// value PlaneSector::new could return; that it is a pure function of its arguments is the listed assumption.
+//@append src/primitives/common/plane_sector.rs
+#[cfg(kani)]
+#[allow(missing_docs, trivial_casts, trivial_numeric_casts, unused_qualifications, dead_code, unused)]
+pub(in crate::primitives) mod verif_ps {
+    use super::*;
+    pub static mut FIXED: Option<PlaneSector> = None;
+    /// any plane sector with small normals (-8..=7 in both components; the real ones are scaled by 1024:
+    /// products of wide symbolic factors on both sides of an equality are out of the SAT solver's reach),
+    /// any operation
+    pub fn any_plane_sector() -> PlaneSector {
+        let n = || Point::new((kani::any::<u8>() & 15) as i32 - 8, (kani::any::<u8>() & 15) as i32 - 8);
+        PlaneSector {
+            half_plane_left: OriginLinearEquation { normal_vector: n() },
+            half_plane_right: OriginLinearEquation { normal_vector: n() },
+            operation: match kani::any::<u8>() % 3 { 0 => Operation::Intersection, 1 => Operation::Union, _ => Operation::EntirePlane },
+        }
+    }
+    impl PlaneSector {
+        pub fn verif_is_intersection(&self) -> bool {
+            self.operation == Operation::Intersection
+        }
+    }
+    /// stands for PlaneSector::new as a pure function: the same (arbitrary) value at every call
+    pub fn new_fixed(_angle_start: Angle, _angle_sweep: Angle) -> PlaneSector {
+        unsafe { FIXED.unwrap() }
+    }
+}
+//@end
+//@append src/primitives/common/mod.rs
+#[cfg(kani)]
+pub(in crate::primitives) use plane_sector::verif_ps;
+//@end
+//@append src/primitives/common/distance_iterator.rs
+#[cfg(kani)]
+impl DistanceIterator {
+    pub(in crate::primitives) fn verif_set_points(&mut self, points: rectangle::Points) {
+        self.points = points;
+    }
+}
+//@end
 //@append src/primitives/sector/points.rs
 #[cfg(kani)]
 #[allow(missing_docs, trivial_casts, trivial_numeric_casts, unused_qualifications, dead_code, unused)]
 mod verif_c05s {
     use super::*;
     use crate::{
-        geometry::{Angle, Dimensions},
-        primitives::{ContainsPoint, PointsIter},
+        geometry::{Angle, Dimensions, Size},
+        primitives::{common::verif_ps, ContainsPoint, PointsIter, Rectangle},
         verif_probe::{any_point, sp},
     };
 
-    /// From the constructor (class P): a tiny sector with one of four angle pairs: a probe point is
-    /// yielded by points() exactly when contains() accepts it, at most once, in row-major order.
-    //@harness prop=C05 kind=bounded tier=thorough class=P bound="diameter <= 3 at (0,0), angle pairs (0,90), (45,-135), (90,180), (30,400) degrees" timeout=3000 unwindset="rectangle::Points as core::iter::Iterator>::next=3;try_fold=11" fns=src/primitives/sector/points.rs::Points::new;src/primitives/sector/points.rs::Points::next;src/primitives/sector/mod.rs::Sector::contains;src/primitives/common/distance_iterator.rs::DistanceIterator::next
+    /// Step contract (class I over a generalised state: the remaining points are those of ANY one-row
+    /// rectangle of up to 3 points inside the bounding box instead of the real remaining rows): next()
+    /// returns the first remaining point that contains() accepts, skipping exactly the points it rejects;
+    /// the constructor iterates the bounding box (row-major, each point once: C16 rectangle::Points).
+    //@harness prop=C05 kind=step tier=quick class=I bound="diameter <= 15, position within +-64; remaining run of <= 3 points; every pair of half-plane normals with components in -8..=7 and every operation in place of the value of PlaneSector::new (assumed pure)" timeout=900 kani="--no-assertion-reach-checks" fns=src/primitives/sector/points.rs::Points::new;src/primitives/sector/points.rs::Points::next;src/primitives/sector/mod.rs::Sector::contains;src/primitives/common/distance_iterator.rs::DistanceIterator::next;src/primitives/common/distance_iterator.rs::DistanceIterator::new
     #[kani::proof]
-    #[kani::unwind(11)]
-    fn c05_sector_points_equals_contains_tiny() {
-        let d: u32 = kani::any();
-        kani::assume(d <= 3);
-        let (a0, a1) = match kani::any::<u8>() % 4 {
-            0 => (0.0, 90.0),
-            1 => (45.0, -135.0),
-            2 => (90.0, 180.0),
-            _ => (30.0, 400.0),
-        };
-        let s = Sector::new(Point::new(0, 0), d, Angle::from_degrees(a0), Angle::from_degrees(a1));
-        let q = any_point(8);
+    #[kani::unwind(5)]
+    #[kani::stub(crate::primitives::common::PlaneSector::new, crate::primitives::common::plane_sector::verif_ps::new_fixed)]
+    fn c05_sector_points_step() {
+        let d = (kani::any::<u8>() & 15) as u32;
+        unsafe { verif_ps::FIXED = Some(verif_ps::any_plane_sector()) };
+        let s = Sector::new(any_point(64), d, Angle::zero(), Angle::zero());
         let mut it = s.points();
-        let mut hits = 0;
-        let mut prev: Option<Point> = None;
-        let mut k = 0;
-        while k < 10 {
-            if let Some(p) = it.next() {
-                assert!(sp::contains(&s.bounding_box(), p));
-                if let Some(pp) = prev {
-                    assert!(sp::before(pp, p));
-                }
-                prev = Some(p);
-                if p == q {
-                    hits += 1;
-                }
-            }
-            k += 1;
-        }
-        assert!(it.next().is_none());
-        assert!(hits == if s.contains(q) { 1 } else { 0 });
-        kani::cover!(hits == 1);
-        kani::cover!(hits == 0 && sp::contains(&s.bounding_box(), q));
+        // constructor: all points of the bounding box, distances measured from the doubled centre
+        let c2 = Point::new(2 * s.top_left.x + d as i32 - 1, 2 * s.top_left.y + d as i32 - 1);
+        assert!(it.iter == DistanceIterator::new(if d == 0 { s.top_left * 2 } else { c2 }, &s.bounding_box()));
+        // generalised state: a run of n <= 3 points of one row of the bounding box
+        let p0 = any_point(256);
+        let n = (kani::any::<u8>() & 3) as u32;
+        let run = Rectangle::new(p0, Size::new(n, 1));
+        kani::assume(n == 0 || sp::subset(&run, &s.bounding_box()));
+        it.iter.verif_set_points(run.points());
+        let r = it.next();
+        let at = |i: i32| Point::new(p0.x + i, p0.y);
+        let c = |i: i32| (i as u32) < n && s.contains(at(i));
+        let expected = if c(0) { Some(at(0)) } else if c(1) { Some(at(1)) } else if c(2) { Some(at(2)) } else { None };
+        assert!(r == expected);
+        kani::cover!(r == Some(at(2)));
+        kani::cover!(r.is_none() && n == 3 && unsafe { verif_ps::FIXED.unwrap() }.verif_is_intersection());
     }
 }
 //@end
